@@ -16,6 +16,7 @@ VIEW View
 INVARIANT ShapeOK
 INVARIANT DiskWellFormed
 PROPERTY AppendOnly
+PROPERTY RefinesLaws
 PROPERTY FailureAtomic
 PROPERTY RoundTrip
 PROPERTY PostfixIsolation
